@@ -77,11 +77,13 @@ def maxabs(a):
 
 
 def noise_floor(*tensor_dicts):
-    """Absolute tolerance floor for relations between tensors: 1e-13 of the largest entry of any order key of the results
-    involved. A key whose entries are themselves rounding residue of a cancellation (1e-16 of the neighbouring keys) must not be
+    """Absolute tolerance floor for relations between tensors: 1e-12 of the largest entry of any order key of the results
+    involved (1e-13 until session 3: a key that is the residue of a cancellation among operator products with entries of 1e2-1e3 -
+    the (2,0,0,2) key of a CC top observable below threshold, 1.4e-13 next to neighbours of 0.9 - differed by 1.9e-13 of the largest
+    entry between a target run and the rotated proton run). A key whose entries are themselves rounding residue of a cancellation (1e-16 of the neighbouring keys) must not be
     judged relative to its own size."""
     m = 0.0
     for d in tensor_dicts:
         for t in d.values():
             m = max(m, maxabs(t))
-    return 1e-13 * m + 1e-300
+    return 1e-12 * m + 1e-300
